@@ -113,6 +113,9 @@ def make_source(spec, gdir):
             (src / name).write_text("not part of the dataset")
         if spec.get("decoy_zip"):
             _zip_tree(src.with_suffix(".zip"), {"stale/old.bin": b"outdated content"})
+        if spec.get("bad_zip"):
+            # one archive of the folder is damaged (zero bytes / truncated upload): the source cannot be copied completely
+            (src / "zz_broken.zip").write_bytes(b"" if spec["bad_zip"] == 1 else b"PK\x03\x04 truncated")
     return gpath
 
 
@@ -325,6 +328,9 @@ def judge(sc, killed_inside):
         # the statement is conditional on a normal return
         return "final-call-raised:" + fin["error"][:60]
     res = fin["result"]
+    if spec.get("bad_zip") and spec["pre"] not in ("user", "user_empty") and res.get("was_copied"):
+        # a normal return says "the local folder holds a complete copy": with a damaged archive in the source there is no complete copy
+        raise Violation("damaged-archive-silently-skipped", f"the source holds a damaged archive, yet the call returned normally with {res}")
     got = read_tree(sc.dst)
     dst_rel = os.path.relpath(os.path.realpath(str(sc.dst)), os.path.realpath(str(sc.lroot)))
 
@@ -421,7 +427,7 @@ def check(spec):
 
 
 # ------------------------------------------------------------------------------------------ strategies / enumeration
-NAMES = ["a", "b", "cls0", "cls1", "x1"]
+NAMES = ["a", "b", "cls0", "cls1", "x1", "v1.0", "dog.husky", "dog.beagle"]  # class folders may carry dots
 FILES = ["f.bin", "g.dat", "img_0", "z", "notes"]
 
 
@@ -460,7 +466,7 @@ def scenario_s(draw, max_crashes=3):
     return {"fmt": fmt, "tree": draw(tree_s()), "relative": rel_,
             "pre": pre_, "fn": fn_,
             "readme": draw(st.sampled_from([0, 1, 2, 2])), "workers": draw(st.sampled_from([0, 1])),
-            "path_form": draw(st.sampled_from(["path", "str", "rel_path", "symlink", "relcwd", "tilde"])), "link": draw(st.integers(0, 3)) == 0, "decoy_zip": draw(st.integers(0, 3)) == 0, "call": draw(st.sampled_from(["keyword", "keyword", "positional"])),
+            "path_form": draw(st.sampled_from(["path", "str", "rel_path", "symlink", "relcwd", "tilde"])), "link": draw(st.integers(0, 3)) == 0, "decoy_zip": draw(st.integers(0, 3)) == 0, "bad_zip": draw(st.sampled_from([0, 0, 0, 0, 1, 2])) if fmt == "zips" else 0, "call": draw(st.sampled_from(["keyword", "keyword", "positional"])),
             "crashes": draw(st.lists(st.floats(0, 0.999).map(lambda f: round(f, 3)), min_size=min(max_crashes, draw(st.sampled_from([0, 1, 1, 1]))),
                                     max_size=max_crashes))}
 
